@@ -1,13 +1,60 @@
-(** C09 - a macro call behaves as its body with the call's arguments substituted (examples; theorems follow). *)
+(** C09 - a macro call behaves as its body with the call's arguments substituted.
+    Property theorems only; proofs are in Proofs/MacroProofs.v, Proofs/ExprRoundTrip.v (ClimbProofs.v). *)
 From Coq Require Import List ZArith NArith String.
 Import ListNotations.
-Require Import AvraV.Model.Base AvraV.Model.Ast AvraV.Model.Passes.
+Require Import AvraV.Model.Base AvraV.Model.Ast AvraV.Model.Climb AvraV.Model.Grammar AvraV.Model.Display AvraV.Model.Eval AvraV.Model.Encode.
+Require Import AvraV.Model.Parse AvraV.Model.Passes.
+Require Import AvraV.Proofs.ClimbProofs AvraV.Proofs.ExprRoundTrip AvraV.Proofs.MacroProofs.
+
+(** (1) SUBSTITUTION.  A body line is a sequence of pieces: literal text without '@' and parameter
+    references @0..@9.  For a call with 1 to 10 arguments whose texts contain no '@', the line the
+    expansion parses is the body line with EVERY @i replaced by the text of argument i, all at once -
+    the sequential replace of the code cannot re-substitute or mix up parameters - and a reference
+    beyond the supplied arguments stays as written (it is then a syntax error: '@' is in no rule of
+    the grammar).  A call without arguments leaves the body untouched. *)
+Theorem C09_substitute : forall ops n toks, ops <> [] -> (length ops <= 10)%nat ->
+  forallb no_at (map display_iop ops) = true -> forallb tok_ok toks = true ->
+  substitute ops [(n, flat toks)] = [(n, flat (map (sub_all 0 (map display_iop ops)) toks))].
+Proof. exact substitute_line. Qed.
+Print Assumptions C09_substitute.
+Theorem C09_no_arguments : forall body, substitute [] body = body.
+Proof. exact substitute_none. Qed.
+
+(** (2) THE VALUE THE CALLER WROTE, PARENTHESES INCLUDED.  The text an expression argument is turned
+    into (fmt::Display: every compound operand parenthesised) contains no '@' and - wherever it is
+    placed, as long as the text after it does not glue onto it - is read back by the grammar as
+    exactly the expression the caller wrote, whatever operators, precedence levels and nesting it has. *)
+Theorem C09_argument_text : forall e rest, wfe e -> neutral_rest rest ->
+  expr_rule (display_expr (conv e) ++ rest) = Some (conv e, rest).
+Proof. exact display_roundtrip_ctx. Qed.
+Print Assumptions C09_argument_text.
+Theorem C09_argument_alone : forall e, wfe e -> parse_expr (display_expr (conv e)) = Some (conv e).
+Proof. exact display_roundtrip. Qed.
+Theorem C09_argument_no_at : forall e, wfe e -> no_at (display_expr (conv e)) = true.
+Proof. exact display_no_at. Qed.
+
+(** (3) NAMES: a call finds the macro whatever the letter case (both sides are lower-cased), and calling
+    an undefined macro is an error naming the line of the call *)
+Theorem C09_case : forall n n', lower n = lower n' -> operation_of_name n = operation_of_name n'.
+Proof. exact call_case. Qed.
+Theorem C09_undefined : forall fuel inc macroses line name ops st,
+  lookup name macroses = None -> macro_expand fuel inc macroses line name ops st = Err (Some line).
+Proof. exact undefined_macro. Qed.
+
+(** Examples (whole pipeline): repeated calls, calls before the definition, nesting, letter case, errors. *)
 Definition code_of (src : string) : option (list N) :=
   match build_str 200 (list_ascii_of_string src) with Ok b => Some (b_code b) | _ => None end.
 Definition nl := String (Ascii.ascii_of_N 10) EmptyString.
+Local Open Scope string_scope.
 Example C09_examples :
   code_of (".macro Tri" ++ nl ++ " .dw @0 * 3" ++ nl ++ ".endm" ++ nl ++ " TRI 1+2" ++ nl) = Some [9; 0]%N /\
   code_of (".macro negw" ++ nl ++ " .dw -@0" ++ nl ++ ".endm" ++ nl ++ " negw 1+2" ++ nl) = Some [253; 255]%N /\
+  code_of (" two 1" ++ nl ++ ".macro two" ++ nl ++ " one @0" ++ nl ++ " one @0+1" ++ nl ++ ".endm" ++ nl ++ ".macro one" ++ nl ++ " .db @0, 0" ++ nl ++ ".endm" ++ nl)
+     = Some [1; 0; 2; 0]%N /\
   code_of (" nosuchmacro 1" ++ nl) = None /\
   code_of (".macro m" ++ nl ++ " ldi r16, @0" ++ nl ++ ".endm" ++ nl ++ " m" ++ nl) = None.
 Proof. vm_compute. repeat split; reflexivity. Qed.
+Example C09_substitute_example :
+  substitute [OE (EBin (EConst 1) BAdd (EConst 2)); OR8 17] [(0%N, lit " subi @1, @0*@0 ; @2")]
+  = [(0%N, lit " subi r17, (1+2)*(1+2) ; @2")].
+Proof. vm_compute. reflexivity. Qed.
